@@ -174,7 +174,7 @@ def storage_level(ctx):
     X.install()
     cases, expect = [], []
     n = 0
-    for stat, sub, lk in itertools.product((0, 1), (0, 1), ("r", "w")):
+    for stat, sub, lk in itertools.product((0, 1), (0, 1, 2), ("r", "w")):
         dic = X.Dict()
         cfg = dict(stat=stat, sub=sub, ver=0, skip=1)
         run = X.Run(dic, cfg, "S")
